@@ -636,4 +636,276 @@ theorem ei_halt_once_per_frame (s : Cpu) (z : ZX) (k : Nat) (hg : C04Sys.Good z.
   · rw [tj, t0, pj, Nat.add_mul, Nat.one_mul]; omega
   · rw [tj, t0, pj, Nat.add_mul, Nat.one_mul]; omega
 
+/-! ## RETN / RETI -/
+
+/-- the CPU state behind a RETN/RETI (two opcode fetches: R+2; Q stepped): IFF1 := IFF2, SP+2, PC =
+MEMPTR = the popped word, everything else as before -/
+def returned (s : Cpu) (w : BitVec 16) : Cpu :=
+  { s with r := incR (incR s.r), lastQ := s.q, q := 0, iff1 := s.iff2, sp := s.sp + 2, pc := w, memptr := w,
+           activePrefix := .none }
+
+/-- the timed bus operations of RETN/RETI, oldest first: two 4-T opcode fetches, two 3-T stack reads -/
+def retnCycles (l : BitVec 8) (s : Cpu) : List (BitVec 8 × TOp) :=
+  [(l, .mem s.pc 4), (l, .mem (s.pc + 1) 4), (l, .mem s.sp 3), (l, .mem (s.sp + 1) 3)]
+
+/-- **RETN/RETI, the instruction itself, on the machine** — for any CPU and machine state in which the map
+shows `ED op` at PC with `op` one of the eight encodings 45/4D/55/5D/65/6D/75/7D (so also for the
+instruction an accepting `emulate` runs behind the acknowledge: `emulate_zx`): IFF1 := IFF2, IFF2 kept; PC =
+MEMPTR = the word whose low byte is read at SP and whose high byte at SP+1 (mod 65536), both through the
+map as paged at that moment (ROM included); SP+2; R+2; memory, paging and devices untouched. -/
+theorem retn_body_on_machine (s : Cpu) (z : ZX) (op : BitVec 8) (hop : C02.isRetnReti op = true)
+    (hap : s.activePrefix = .none) (h1 : z.ctl.mem.read s.pc = 0xED) (h2 : z.ctl.mem.read (s.pc + 1) = op) :
+    let w := mk16 (z.ctl.mem.read (s.sp + 1)) (z.ctl.mem.read s.sp)
+    (execOne .hw s z).1 = returned s w ∧ (execOne .hw s z).2.ctl.mem = z.ctl.mem ∧
+    Kept z (execOne .hw s z).2 := by
+  intro w
+  have hed := decode_ED
+  have hdec := C02.retn_decode op hop
+  simp only [BitVec.ofNat_eq_ofNat] at h1 h2
+  have e : execOne .hw s z =
+      execED (.retn (op == 0x4D)) (stepQ { s with r := incR (incR s.r), pc := s.pc + 1 + 1 })
+        (Bus.waitMreq (s.pc + 1) 4 (Bus.waitMreq s.pc 4 z)) := by
+    simp [execOne, hap, fetchByte, ZxVerif.Z80.read, readInternal_val, readInternal_bus, waitMreq_mem,
+      afterEDPrefix, stepQ, h1, h2, hed, hdec]
+  rw [e]
+  have hz2 : (Bus.waitMreq (s.pc + 1) 4 (Bus.waitMreq s.pc 4 z)).ctl.mem = z.ctl.mem := by
+    rw [waitMreq_mem, waitMreq_mem]
+  have hk2 : Kept z (Bus.waitMreq (s.pc + 1) 4 (Bus.waitMreq s.pc 4 z)) :=
+    (kept_waitMreq _ 4 z).trans (kept_waitMreq _ 4 _)
+  simp only [execED]
+  refine ⟨?_, ?_, ?_⟩
+  · rw [pop16_val, hz2]
+    show _ = returned s (mk16 (z.ctl.mem.read (s.sp + 1)) (z.ctl.mem.read s.sp))
+    clear e hk2 hz2 hdec hed h1 h2
+    cases s; simp_all [returned, stepQ, pop16]
+  · split <;> simp only [reti_eq, pop16_mem, hz2]
+  · split
+    · exact hk2.trans (kept_pop16 _ _ _)
+    · exact hk2.trans (kept_pop16 _ _ _)
+
+/-- **RETN/RETI executed by any program on the machine.** At any boundary that accepts nothing (the usual
+case: the routine's `EI` directly before holds acceptance off, or the INT pulse is over) with `ED op` at PC:
+one `emulate` copies IFF2 to IFF1, pops PC through the map (low byte at SP, high at SP+1), SP+2, R+2, leaves
+memory, paging and devices alone, and in a `Good` state takes 14 T-states plus the ULA delays of exactly its
+two opcode fetches and two stack reads. RETI and RETN differ only in the `reti` notification, which the
+machine ignores. -/
+theorem retn_on_machine (s : Cpu) (z : ZX) (op : BitVec 8) (hop : C02.isRetnReti op = true)
+    (hd : decision s z = .none) (hap : s.activePrefix = .none)
+    (h1 : z.ctl.mem.read s.pc = 0xED) (h2 : z.ctl.mem.read (s.pc + 1) = op) :
+    let w := mk16 (z.ctl.mem.read (s.sp + 1)) (z.ctl.mem.read s.sp)
+    (emulate .hw (s, z)).1 = returned { s with skipInt := false } w ∧
+    (emulate .hw (s, z)).1.iff1 = s.iff2 ∧ (emulate .hw (s, z)).1.iff2 = s.iff2 ∧
+    (emulate .hw (s, z)).1.pc = w ∧ (emulate .hw (s, z)).1.sp = s.sp + 2 ∧
+    (emulate .hw (s, z)).2.ctl.mem = z.ctl.mem ∧ Kept z (emulate .hw (s, z)).2 ∧
+    (C04Sys.Good z.ctl →
+      total (emulate .hw (s, z)).2.ctl =
+        total z.ctl + 14 + C04Sys.delaysAlong z.ctl.kind (total z.ctl) (retnCycles z.ctl.port7ffd s) ∧
+      C04Sys.Good (emulate .hw (s, z)).2.ctl) := by
+  intro w
+  have he := emulate_no_accept .hw s z hd
+  obtain ⟨b1, b2, b3⟩ := retn_body_on_machine { s with skipInt := false } z op hop hap h1 h2
+  rw [← he] at b1 b2 b3
+  refine ⟨b1, by rw [b1]; rfl, by rw [b1]; rfl, by rw [b1]; rfl, by rw [b1]; rfl, b2, b3, fun hg => ?_⟩
+  have hc1 : z.cpuMem s.pc = 0xED := h1
+  have hc2 : z.cpuMem (s.pc + 1) = op := h2
+  have ht := C03Sys.step_time_ed .hw s z hg hd hap hc1
+  rw [hc2, C02.retn_decode op hop] at ht
+  have hl : (emulate .hw (s, z)).2.ctl.port7ffd = z.ctl.port7ffd := b3.latch
+  rw [hl] at ht
+  have hlist : timedOf z.ctl.port7ffd z.ctl.port7ffd
+      (Spec.fetch4 s.pc ++ Spec.fetch4 (s.pc + 1) ++ Spec.docED (.retn (op == 0x4D)) (body2 s) z.cpuMem) =
+      retnCycles z.ctl.port7ffd s := by
+    simp [Spec.docED, Spec.popCycles, Spec.rd3, Spec.fetch4, timedOf, body2, stepQ, retnCycles]
+  rw [hlist] at ht
+  simpa [Spec.docTED] using ht
+
+/-- **RETN/RETI behind a parked ED prefix** (`DD ED 4D`, `FD FD ED 45`, …: the index prefix parks the ED
+with acceptance held off, `C02.inv_prefix_implies_skip`; the opcode byte runs in the next `emulate`): the
+same effects with one opcode fetch in this call. -/
+theorem retn_parked_on_machine (s : Cpu) (z : ZX) (op : BitVec 8) (hop : C02.isRetnReti op = true)
+    (hap : s.activePrefix = .ed) (h1 : z.ctl.mem.read s.pc = op) :
+    let w := mk16 (z.ctl.mem.read (s.sp + 1)) (z.ctl.mem.read s.sp)
+    (execOne .hw s z).1 =
+      { s with r := incR s.r, lastQ := s.q, q := 0, iff1 := s.iff2, sp := s.sp + 2, pc := w, memptr := w,
+               activePrefix := .none } ∧
+    (execOne .hw s z).2.ctl.mem = z.ctl.mem ∧ Kept z (execOne .hw s z).2 := by
+  intro w
+  have hdec := C02.retn_decode op hop
+  have e : execOne .hw s z =
+      execED (.retn (op == 0x4D)) (stepQ { s with activePrefix := .none, r := incR s.r, pc := s.pc + 1 })
+        (Bus.waitMreq s.pc 4 z) := by
+    simp [execOne, hap, fetchByte, ZxVerif.Z80.read, readInternal_val, readInternal_bus, waitMreq_mem,
+      afterEDPrefix, stepQ, h1, hdec]
+  rw [e]
+  have hz2 : (Bus.waitMreq s.pc 4 z).ctl.mem = z.ctl.mem := waitMreq_mem _ _ _
+  have hk2 : Kept z (Bus.waitMreq s.pc 4 z) := kept_waitMreq _ 4 z
+  simp only [execED]
+  refine ⟨?_, ?_, ?_⟩
+  · rw [pop16_val, hz2]
+    show _ = { s with r := incR s.r, lastQ := s.q, q := 0, iff1 := s.iff2, sp := s.sp + 2,
+                      pc := mk16 (z.ctl.mem.read (s.sp + 1)) (z.ctl.mem.read s.sp),
+                      memptr := mk16 (z.ctl.mem.read (s.sp + 1)) (z.ctl.mem.read s.sp), activePrefix := .none }
+    clear e hk2 hz2 hdec h1
+    cases s; simp_all [stepQ, pop16]
+  · split <;> simp only [reti_eq, pop16_mem, hz2]
+  · split
+    · exact hk2.trans (kept_pop16 _ _ _)
+    · exact hk2.trans (kept_pop16 _ _ _)
+
+/-! ## From reset: no side condition left -/
+
+/-- **IM 2 entry after every program from reset** (either machine, with or without joystick/mouse): at
+whatever boundary of whatever program the frame interrupt is accepted in IM 2, the routine address is the
+word read at `I*256+0xFF` / `+1 mod 65536` through the map of that moment from the memory the pushes left,
+and the acknowledge takes 19 T-states plus the ULA delays of its five timed operations. -/
+theorem im2_vector_after_program (k : Kind) (ke mo : Bool) (n : Nat) (s0 : Cpu) :
+    let r := Z80.run .hw n (s0, ZX.new k ke mo)
+    decision r.1 r.2 = .int → r.1.im = 2 →
+    let m1 := pushed r.2.ctl.mem r.1.sp (if r.1.halted then r.1.pc + 1 else r.1.pc)
+    let va := mk16 r.1.i 0xFF
+    (checkInterrupt r.1 r.2).1 = entered r.1 (mk16 (m1.read (va + 1)) (m1.read va)) ∧
+    (checkInterrupt r.1 r.2).2.ctl.mem = m1 ∧
+    Z80.run .hw (n + 1) (s0, ZX.new k ke mo) =
+      execOne .hw (entered r.1 (mk16 (m1.read (va + 1)) (m1.read va))) (checkInterrupt r.1 r.2).2 ∧
+    total (checkInterrupt r.1 r.2).2.ctl =
+      total r.2.ctl + 19 + C04Sys.delaysAlong k (total r.2.ctl) (im2Cycles r.2.ctl.port7ffd r.1) := by
+  intro r hd him m1 va
+  have hg : C04Sys.Good r.2.ctl := C06Prog.good_after_program k ke mo n s0
+  have hk : r.2.ctl.kind = k := C06Prog.kind_after_program k ke mo n s0
+  obtain ⟨a, b, _, d, _, _, t⟩ := im2_vector_on_machine r.1 r.2 hd him
+  refine ⟨a, b, ?_, ?_⟩
+  · rw [run_succ']; exact d
+  · rw [← hk]; exact (t hg).1
+
+/-! ## Non-vacuity: concrete machine states (kernel evaluation) -/
+
+/-- a 48K at frame clock 5. ROM: 0xF3 at 0x0000 (as the real ROM: DI) and a service routine at 0x0038
+(`PUSH AF; POP AF; EI; RET`); RAM: 0x80 at 0xFFFF (bank 2, offset 0x3FFF) and the waiting loop
+`EI; HALT; JR -4` at 0x8000 -/
+def exampleZX : ZX :=
+  { ZX.new .k48 false false with
+    ctl := { Ctl.new .k48 with
+      frameClocks := 5
+      mem := { Mem.new .k48 with
+        rom := fun _ o =>
+          if o = 0 then 0xF3 else if o = 0x38 then 0xF5 else if o = 0x39 then 0xF1
+          else if o = 0x3A then 0xFB else if o = 0x3B then 0xC9 else 0
+        ram := fun p o =>
+          if p = 2 ∧ o = 0x3FFF then 0x80
+          else if p = 1 ∧ o = 0 then 0xFB else if p = 1 ∧ o = 1 then 0x76
+          else if p = 1 ∧ o = 2 then 0x18 else if p = 1 ∧ o = 3 then 0xFC else 0 } } }
+
+/-- halted at the HALT of the loop, interrupts enabled, IM 2 with I = 0xFF -/
+def exampleCpu : Cpu :=
+  { pc := 0x8001, sp := 0x9000, im := 2, i := 0xFF, iff1 := true, iff2 := true, halted := true }
+
+theorem example_good : C04Sys.Good exampleZX.ctl := ⟨by decide, Or.inl ⟨rfl, rfl, rfl⟩⟩
+
+/-- the hypotheses of `im2_vector_on_machine` and `im2_vector_top_of_memory` are met -/
+example : decision exampleCpu exampleZX = .int ∧ exampleCpu.im = 2 ∧ exampleCpu.i = 0xFF ∧
+    exampleZX.ctl.mem.map 0 = .rom 0 := by decide +kernel
+
+/-- … and this is what the machine does: the routine address is 0xF380 — low byte 0x80 from 0xFFFF (RAM),
+high byte 0xF3 from 0x0000 (ROM) —, the return address 0x8002 (behind the HALT) lies at 0x8FFF/0x8FFE,
+SP = 0x8FFE, flip-flops and halted cleared, 19 T-states (nothing contended at frame clock 5) -/
+example :
+    let r := checkInterrupt exampleCpu exampleZX
+    r.1.pc = 0xF380 ∧ r.1.sp = 0x8FFE ∧ r.1.iff1 = false ∧ r.1.iff2 = false ∧ r.1.halted = false ∧
+    r.1.r = 1 ∧ r.2.ctl.mem.read 0x8FFF = 0x80 ∧ r.2.ctl.mem.read 0x8FFE = 0x02 ∧
+    r.2.ctl.frameClocks = 5 + 19 := by decide +kernel
+
+/-- the vector is read from the memory the pushes left, through the map: with SP = 0x0001 the high byte of
+the return address is aimed at 0x0000 (ROM: dropped, the ROM byte 0xF3 stays) and its low byte 0x02 lands on
+0xFFFF, the low byte of the table entry — the routine address becomes 0xF302 -/
+example :
+    let r := checkInterrupt { exampleCpu with sp := 0x0001 } exampleZX
+    r.1.pc = 0xF302 ∧ r.1.sp = 0xFFFF ∧ r.2.ctl.mem.read 0x0000 = 0xF3 ∧ r.2.ctl.mem.read 0xFFFF = 0x02 := by
+  decide +kernel
+
+/-- a stack entirely in ROM: nothing is stored, the entry is otherwise the same -/
+example :
+    let r := checkInterrupt { exampleCpu with sp := 0x0100 } exampleZX
+    r.1.pc = 0xF380 ∧ r.1.sp = 0x00FE ∧ r.2.ctl.mem.read 0x00FF = 0 ∧ r.2.ctl.mem.read 0x00FE = 0 ∧
+    inRam exampleZX.ctl.mem 0x00FF = false ∧ inRam exampleZX.ctl.mem 0x00FE = false := by decide +kernel
+
+/-- 128K with ROM 1 paged in (latch 0x10) and bank 3 at 0xC000 (latch bits 0–2): the high byte comes from
+ROM 1 (0xAF here, ROM 0 holds 0xF3), the low byte from bank 3 -/
+def example128 : ZX :=
+  { ZX.new .k128 false false with
+    ctl := ({ Ctl.new .k128 with
+      frameClocks := 5
+      mem := { Mem.new .k128 with
+        rom := fun p o => if o = 0 then (if p = 1 then 0xAF else 0xF3) else 0
+        ram := fun p o => if o = 0x3FFF then BitVec.ofNat 8 (0x40 + p) else 0 } }).write7ffd 0x13 }
+
+example :
+    decision exampleCpu example128 = .int ∧ example128.ctl.mem.map 0 = .rom 1 ∧
+    (checkInterrupt exampleCpu example128).1.pc = 0xAF43 := by decide +kernel
+
+/-- IM 1 (and IM 0) in the same state: PC = 0x0038, 13 T-states -/
+example :
+    let r := checkInterrupt { exampleCpu with im := 1 } exampleZX
+    let r0 := checkInterrupt { exampleCpu with im := 0 } exampleZX
+    r.1.pc = 0x0038 ∧ r.2.ctl.mem.read 0x8FFF = 0x80 ∧ r.2.ctl.mem.read 0x8FFE = 0x02 ∧
+    r.2.ctl.frameClocks = 5 + 13 ∧ r0.1.pc = 0x0038 ∧ r0.2.ctl.frameClocks = 5 + 13 := by decide +kernel
+
+/-- the acceptance rule at work: at frame clock 32 the same CPU state is not served; with IFF1 clear or
+directly behind an EI neither at clock 5 -/
+example :
+    decision exampleCpu { exampleZX with ctl := { exampleZX.ctl with frameClocks := 32 } } = .none ∧
+    decision exampleCpu { exampleZX with ctl := { exampleZX.ctl with frameClocks := 31 } } = .int ∧
+    decision { exampleCpu with iff1 := false } exampleZX = .none ∧
+    decision { exampleCpu with skipInt := true } exampleZX = .none := by decide +kernel
+
+/-- the example CPU in IM 1 -/
+def idiomCpu : Cpu := { exampleCpu with im := 1 }
+
+/-- **The `EI; HALT` idiom, hypotheses of `ei_halt_once_per_frame` met by a real run** (IM 1): boundary 0
+accepts at frame clock 5; `PUSH AF` runs in the same `emulate`, then `POP AF; EI; RET; JR; EI; HALT` — seven
+boundaries later the CPU waits in HALT again at frame clock 73 of the same frame, and at no boundary in
+between are interrupts effectively enabled sooner than 32 T-states after the acceptance (the first such
+boundary is the one behind `RET`, 48 T-states later). -/
+theorem example_idiom :
+    decision idiomCpu exampleZX = .int ∧
+    (Z80.run .hw 7 (idiomCpu, exampleZX)).1.halted = true ∧ (Z80.run .hw 7 (idiomCpu, exampleZX)).1.iff1 = true ∧
+    (Z80.run .hw 7 (idiomCpu, exampleZX)).1.skipInt = false ∧ (Z80.run .hw 7 (idiomCpu, exampleZX)).1.activePrefix = .none ∧
+    (Z80.run .hw 7 (idiomCpu, exampleZX)).1.pc = 0x8001 ∧
+    (Z80.run .hw 7 (idiomCpu, exampleZX)).2.ctl.readInternal 0x8001 = 0x76 ∧
+    (Z80.run .hw 7 (idiomCpu, exampleZX)).2.ctl.passedFrames = exampleZX.ctl.passedFrames ∧
+    (Z80.run .hw 7 (idiomCpu, exampleZX)).2.ctl.frameClocks = 73 ∧
+    (Z80.run .hw 4 (idiomCpu, exampleZX)).2.ctl.frameClocks = 53 ∧
+    (∀ m ∈ List.range 8, 0 < m → (Z80.run .hw m (idiomCpu, exampleZX)).1.iff1 = true →
+      (Z80.run .hw m (idiomCpu, exampleZX)).1.skipInt = false →
+      32 ≤ total (Z80.run .hw m (idiomCpu, exampleZX)).2.ctl - total exampleZX.ctl) := by
+  decide +kernel
+
+/-- … hence its conclusion holds for that program: the next acceptance is the first one after this one and
+lies in the next frame, less than 10 T-states after its start -/
+example : ∃ n,
+    decision (Z80.run .hw (7 + n) (idiomCpu, exampleZX)).1
+      (Z80.run .hw (7 + n) (idiomCpu, exampleZX)).2 = .int ∧
+    (∀ m, 0 < m → m < 7 + n →
+      decision (Z80.run .hw m (idiomCpu, exampleZX)).1
+        (Z80.run .hw m (idiomCpu, exampleZX)).2 = .none) ∧
+    (Z80.run .hw (7 + n) (idiomCpu, exampleZX)).2.ctl.passedFrames = exampleZX.ctl.passedFrames + 1 ∧
+    (Z80.run .hw (7 + n) (idiomCpu, exampleZX)).2.ctl.frameClocks < 10 := by
+  obtain ⟨h0, h1, h2, h3, h4, h5, h6, h7, _, _, h8⟩ := example_idiom
+  have hw : C05Halt.Waiting (Z80.run .hw 7 (idiomCpu, exampleZX)).1
+      (Z80.run .hw 7 (idiomCpu, exampleZX)).2 :=
+    ⟨h1, h2, h3, h4, by rw [h5]; exact h6, (good_run 7 _ _ example_good).1⟩
+  obtain ⟨n, a, b, c, d, _⟩ := ei_halt_once_per_frame idiomCpu exampleZX 7 example_good h0
+    (by decide) hw h7 (fun m hm0 hmk => h8 m (List.mem_range.mpr (by omega)) hm0)
+  exact ⟨n, a, b, c, d⟩
+
+/-- RETN/RETI: the eight encodings satisfy the hypothesis of `retn_on_machine`; on the example machine
+`ED 4D` (RETI) at 0x8000 with IFF1 = 0, IFF2 = 1 and the stack at 0x0000 (ROM: F3 00) returns to 0x00F3 with
+IFF1 = 1 in 14 T-states -/
+example :
+    let z : ZX := { exampleZX with ctl := (exampleZX.ctl.writeInternal 0x8000 0xED).writeInternal 0x8001 0x4D }
+    let s : Cpu := { pc := 0x8000, sp := 0x0000, iff1 := false, iff2 := true }
+    C02.isRetnReti 0x4D = true ∧ decision s z = .none ∧ z.ctl.mem.read 0x8000 = 0xED ∧
+    (emulate .hw (s, z)).1.iff1 = true ∧ (emulate .hw (s, z)).1.pc = 0x00F3 ∧
+    (emulate .hw (s, z)).1.sp = 0x0002 ∧ (emulate .hw (s, z)).2.ctl.frameClocks = 5 + 14 := by decide +kernel
+
 end ZxVerif.C02Sys
+
